@@ -261,7 +261,7 @@ def run(c):
 
     # ------------------------------------------------------------------ models
     def models():
-        c.tlc_model("ParamsModel", constants={"Vals": "{1, 2}" if th else "{1}"}, workers=8)
+        c.tlc_model("ParamsModel", constants={"Vals": "{1, 2}" if th else "{1}"}, workers=8, timeout=3000)
         c.tlc_model("DispatchModel")                      # the tables a correct header has
         dp = c.path("dispatch.ndjson")
         n = dispatch_tables(scan, dp)
@@ -273,6 +273,7 @@ def run(c):
 
     # ------------------------------------------------------------------ builds
     def try_build(**kw):
+        kw.setdefault("timeout", 2700)       # the machine is shared: a loaded box must not turn into an infrastructure error
         try:
             return c.build(**kw), None
         except vcheck.InfraError as e:
@@ -284,7 +285,7 @@ def run(c):
                  dict(name="c14_block", sources=["record_equiv_block.cpp"])]
         for k in range(NPARTS):
             specs.append(dict(name="c14_typed%d" % k, sources=["record_equiv_typed.cpp"], flags=["-DPART=%d" % k, "-DNPARTS=%d" % NPARTS]))
-        thunks = [lambda s=s: c.build(**s) for s in specs]
+        thunks = [lambda s=s: c.build(timeout=2700, **s) for s in specs]
         # optional: MPI structures; probes: exporters that are known not to compile
         thunks.append(lambda: try_build(name="c14_params_mpi", sources=["record_params.cpp"], flags=[inc, "-DC14_PART_MPI"], mpi=True))
         probes = [x for x in comps if x["export"] == "probe" and x["id"] in flat]
@@ -414,7 +415,7 @@ def run(c):
         for np_ in (1, 2, 3):
             typed, rt = {}, {}
             for k in range(4):
-                out = c.record(mb[k][0], [], out=c.path("mpieq-%d-%d.ndjson" % (k, np_)), env=menv, mpi=np_, timeout=600,
+                out = c.record(mb[k][0], [], out=c.path("mpieq-%d-%d.ndjson" % (k, np_)), env=menv, mpi=np_, timeout=1800,
                                sig={"component": "mpi-equivalence", "ranks": np_})
                 for ln in open(out).read().splitlines():
                     if not ln.startswith("{"):
@@ -443,7 +444,7 @@ def run(c):
     open(trace, "w").write("\n".join(lines) + "\n")
 
     # ------------------------------------------------------------------ judgement
-    res = c.tlc_trace("C14Trace", trace, label="params+dispatch+equivalence", chunk=1500)
+    res = c.tlc_trace("C14Trace", trace, label="params+dispatch+equivalence", chunk=1500, timeout=2400)
     kinds = {}
     for ln in res["lines"]:
         try:
